@@ -90,6 +90,17 @@ def o_digests(case):
     got = pyhash.double_sha256(m)
     if bytes(got) != refhash.double_sha256(m):
         _bad("double_sha256!=ref", "double_sha256(%s) = %s" % (desc, bytes(got).hex()))
+    # the message handed over as another bytes-like object (a buffer being filled, a slice of a larger one): same digests
+    if len(m) % 3 != 1:
+        alt = bytearray(m) if len(m) % 3 == 0 else memoryview(bytearray(m))
+        how = type(alt).__name__
+        from vlib.core import lib_call
+        if bytes(lib_call("double_sha256(<%s>)" % how, pyhash.double_sha256, alt)) != refhash.double_sha256(m):
+            _bad("double_sha256!=ref", "double_sha256(<%s> %s)" % (how, desc))
+        if lib_call("hash160(<%s>)" % how, pyhash.hash160, alt) != refhash.hash160(m):
+            _bad("hash160!=ref", "hash160(<%s> %s)" % (how, desc))
+        if lib_call("ripemd160(<%s>)" % how, pyhash.ripemd160, alt).digest() != ref:
+            _bad("ripemd160-selected:digest!=ref", "pycoin.encoding.hash.ripemd160(<%s> %s)" % (how, desc))
     return [_len_class(len(m)), _pad_class(len(m)), "selected=" + getattr(pyhash.ripemd160, "__name__", "?")]
 
 
